@@ -99,10 +99,37 @@ def check_lockset(rep, db, f, inst, gname, lockname):
         return
     for p in ps:
         held = []  # stack of (tmpobj, mode)
+        session = 0
+        obtained = {}  # value obtained from the guarded container -> session in which it was obtained
         for e in p.events:
+            # ---- atomicity: a position/element obtained under one guard must not be used under another
+            if e.kind == "CALL" and held and (is_global(e.c, "::" + gname) or any(is_global(a, "::" + gname) for a in e.b)):
+                for a in list(e.b) + [x for x in ((e.extra or {}).get("argvals") or [])]:
+                    for t, sess in obtained.items():
+                        if sess != session and q.mentions(a, lambda x: x == t or (isinstance(x, tuple) and x[:1] in (("var",), ("tmp",)) and p.state.mem.get(("copyof", x)) == t)):
+                            rep.violation(rule, site(f) + " [%s atomicity]" % gname, "a position/element of %s obtained under one guard is used after that guard was released and another taken "
+                                          "(another thread may have modified the container in between: the iterator is stale)" % gname, e.loc or f["loc"], inst)
+                            return
+            if e.kind == "CALL":
+                def src_session(a):
+                    ss = [sess for t, sess in obtained.items() if q.mentions(a, lambda x: x == t)]
+                    return min(ss) if ss else None
+                srcs = [src_session(a) for a in e.b]
+                srcs = [x for x in srcs if x is not None]
+                r = (e.extra or {}).get("ret")
+                if held and is_global(e.c, "::" + gname):
+                    if r is not None and r != ("void",):
+                        obtained[r] = session
+                elif srcs:
+                    # derived from a position/element of the guarded container: result and target object carry the origin
+                    if r is not None and r != ("void",):
+                        obtained[r] = min(srcs)
+                    if isinstance(e.c, tuple) and e.c[:1] == ("addr",):
+                        obtained[e.c[1]] = min(srcs)
             if e.kind == "CALL" and q.short(e.a) in ("unique_lock", "shared_lock", "lock_guard") and any(is_global(a, "::" + lockname) for a in e.b):
                 mode = "shared" if q.short(e.a) == "shared_lock" else "unique"
                 held.append(((e.extra or {}).get("ret"), mode))
+                session += 1
                 continue
             if e.kind == "UNLOCK":
                 held = [h for h in held if h[0] != e.a]
